@@ -59,6 +59,12 @@ def analyse(ctx):
     crefs = cache_refs(u, f, G)
     map_ids = set(d['id'] for (d, n) in crefs)
     mapkeys = set('%s#%s' % (d.get('name'), d.get('id')) for (d, _) in crefs)
+    # (a reference / const pointer local bound to the map names the map: references to it are map references)
+    alias_ids = set((n.get('referencedDecl') or {}).get('id') for (d, n) in crefs
+                    if n.get('kind') == 'DeclRefExpr' and (n.get('referencedDecl') or {}).get('id') != d.get('id'))
+    mapkeys |= set('%s#%s' % ((n.get('referencedDecl') or {}).get('name'), (n.get('referencedDecl') or {}).get('id')) for (d, n) in crefs
+                   if n.get('kind') == 'DeclRefExpr' and (n.get('referencedDecl') or {}).get('id') in alias_ids)
+    map_ids |= alias_ids
     keys = F.keys
 
     # locals
@@ -275,13 +281,61 @@ def analyse(ctx):
             r = r & s
         return r
     at, after = g.forward(frozenset(), transfer, meet)
+    # the same along the paths that agree with the flag locals (single-exit code: `if (cached) return cached_result;`),
+    # together with the assignment that last gave the returned local its value
+    ret_ids = set()
+    for rn in g.returns:
+        rk = kids(rn.ast)
+        r0 = peel(rk[0]) if rk else None
+        if r0 is not None and r0.get('kind') == 'DeclRefExpr' and (r0.get('referencedDecl') or {}).get('kind') == 'VarDecl':
+            ret_ids.add(r0['referencedDecl'].get('id'))
+
+    def extra(node, ex):
+        if node.kind not in ('stmt', 'cond') or node.ast is None:
+            return ex
+        d = dict(ex or ())
+        ch = False
+        for x in walk(node.ast):
+            for i_, oa in enumerate(out_assigns):
+                if oa['node'] is x:
+                    d['out'] = i_
+                    ch = True
+            if x.get('kind') == 'VarDecl' and x.get('id') in ret_ids and 'init' in x:
+                d[('def', x['id'])] = ('init', x['id'])
+                ch = True
+            if x.get('kind') == 'BinaryOperator' and x.get('opcode') == '=' and \
+                    (peel(kids(x)[0]).get('referencedDecl') or {}).get('id') in ret_ids:
+                d[('def', peel(kids(x)[0])['referencedDecl']['id'])] = ('asg', id(x))
+                ch = True
+        return tuple(sorted(d.items(), key=str)) if ch else ex
+    paths = g.explore(extra) if g.flag_vars() else None
+    asg_by_id = {id(x): x for x in walk(f) if x.get('kind') == 'BinaryOperator' and x.get('opcode') == '='}
     rets = []
     for rn in g.returns:
         st = at.get(rn.id, frozenset())
         outv = [p for p in st if p[0] == 'out']
         rk = kids(rn.ast)
         rkey = keys.key(rk[0]) if rk else ''
-        rets.append(dict(node=rn.ast, out=outv[0] if outv else None, retkey=rkey, ret=rk[0] if rk else None))
+        out_ = outv[0] if outv else None
+        if paths is not None and rn.id in paths:
+            exs = [dict(ex or ()) for (_st, ex) in paths[rn.id]]
+            if out_ is None and exs and all('out' in e_ for e_ in exs):
+                idxs = set(e_['out'] for e_ in exs)
+                if len(idxs) == 1:
+                    oa = out_assigns[list(idxs)[0]]
+                    out_ = ('out', oa['valkey'], oa['source'])
+                else:
+                    srcs = set(out_assigns[i_]['source'] for i_ in idxs)
+                    out_ = ('out', '?', list(srcs)[0] if len(srcs) == 1 else 'mixed')
+            r0 = peel(rk[0]) if rk else None
+            rid = (r0.get('referencedDecl') or {}).get('id') if r0 is not None and r0.get('kind') == 'DeclRefExpr' else None
+            if rid in ret_ids and exs:
+                defs = set(e_.get(('def', rid)) for e_ in exs)
+                if len(defs) == 1 and None not in defs:
+                    kind_, ref_ = list(defs)[0]
+                    if kind_ == 'asg' and ref_ in asg_by_id:
+                        rkey = keys.key(kids(asg_by_id[ref_])[1])
+        rets.append(dict(node=rn.ast, out=out_, retkey=rkey, ret=rk[0] if rk else None))
 
     utc_keys = set('%s#%s' % (locs[i].get('name'), i) for i in utc_ids)
     ctx._loader = dict(key=k, fname=fname(k), unit=u, fn=f, sites=sites, slot_writes=slot_writes,
@@ -291,20 +345,8 @@ def analyse(ctx):
 
 
 def _reach_from(g, starts, targets, cut=()):
-    tg = set(n.id for n in targets)
-    cutids = set(n.id for n in cut)
-    seen = set()
-    stack = list(starts)
-    while stack:
-        n = stack.pop()
-        if n.id in seen or n.id in cutids:
-            continue
-        seen.add(n.id)
-        if n.id in tg:
-            return True
-        for (m, _) in n.succs:
-            stack.append(m)
-    return False
+    """(paths that contradict the constant last given to a flag local are not followed: cfg.reach)"""
+    return g.reach(starts, targets, cut_nodes=cut)
 
 
 def _returns_singleton(ctx, d):
